@@ -5,7 +5,7 @@ import z3
 from pyvc import sym, concretise, effects
 from pyvc.sym import And, Or, Not, Implies, If, eq, SV, is_str
 from pyvc.engine import SymDict, ExcVal, Obj, PyRaise, Entry
-from pyvc.verify import Contract, Outcome
+from pyvc.verify import Contract, native_call, Outcome
 from pyvc.models import ListSet
 from .sections import _veq
 
@@ -144,8 +144,43 @@ class CanonImagesCell(Contract):
     def concretise(self, model, st):
         return None
 
+    # native side: paths that are distinct as strings but tie (or swap) under every "smarter" ordering one may substitute for the plain
+    # string comparison -- zero padding, letter case, numeric runs, trailing separators
+    def sample_inputs(self, rng):
+        for pq in (("a-disc1.iso", "a-disc01.iso"), ("A.iso", "a.iso"), ("x/10.iso", "x/9.iso"), ("d/disc2.iso", "d/disc10.iso"),
+                   ("a.iso", "a.iso/"), ("a b.iso", "a  b.iso"), ("b.iso", "a.iso"), ("a/001", "a/1"), ("i-1.0.iso", "i-1.00.iso")):
+            yield {"paths": list(pq)}
+
     def native_eval(self, inputs):
-        raise NotImplementedError
+        mod = self.src.mods["images"]
+        outs = set()
+        nat = None
+        for attempt in range(24):
+            m = mod.Images()
+            m.compose.id, m.compose.type, m.compose.date, m.compose.respin = "F-21-20141201.0", "production", "20141201", 0
+            ims = []
+            keep = [object() for _ in range(attempt % 5)]       # shifts allocation addresses, i.e. the set's iteration order
+            order = list(inputs["paths"]) if attempt % 2 == 0 else list(reversed(inputs["paths"]))
+            for k, pth in enumerate(order):
+                im = mod.Image(m)
+                for a, v in {"path": pth, "mtime": 1, "size": 2, "volume_id": None, "type": "dvd", "format": "iso", "arch": "x86_64",
+                             "disc_number": 1 + inputs["paths"].index(pth), "disc_count": 2, "checksums": {"sha256": "a" * 64},
+                             "implant_md5": None, "bootable": False, "subvariant": "S", "unified": False, "additional_variants": []}.items():
+                    setattr(im, a, v)
+                ims.append(im)
+            m.images = {"Server": {"x86_64": set(ims)}}
+            data = {}
+            nat = native_call(m.serialize, data)
+            del keep
+            if nat[0] == "raise":
+                return nat, {"valid_manifest_is_written": False}
+            cell = data["payload"]["images"].get("Server", {}).get("x86_64")
+            outs.add(tuple(r["path"] for r in cell) if isinstance(cell, list) else None)
+        return nat, {"valid_manifest_is_written": True, "one_cell_written_for_the_one_cell": None not in outs,
+                     "cell_sorted_by_path": outs == set([tuple(sorted(inputs["paths"]))])}
+
+    def describe(self, inputs):
+        return "Images cell holding two images with paths %r and %r, built 24 times in varying construction order" % tuple(inputs["paths"])
 
 
 class CanonTreeVariant(Contract):
